@@ -464,14 +464,14 @@ def events_jobs(prop, tier):
     """r_events.c: one command line + up to two triggers inside a 3-step window starting at T0, one write refusal anywhere"""
     jobs = []
     n = 96
-    t0s = (0, 15, 27, 39) if tier == "quick" else tuple(range(0, 63, 3))
-    codes = ((0, "dataok"),) if tier == "quick" else ((0, "dataok"), (3, "ok"), (-1, "error"))
+    t0s = (0, 15, 27, 39)
+    codes = ((0, "dataok"),)
     for rc in (1, 2):
         for t0 in t0s:
             for code, cname in codes:
                 d = {"N": n, "T0": t0, "RINGCAP": rc, "CAT_UNSOLICITED_CMD_BUFFER_SIZE": rc, "EVENT_CODE": "(%d)" % code, "CAPB_MIN": 12, "CAPB_MAX": 16}
                 jobs.append(Job("r_events.t%d.r%d.%s" % (t0, rc, cname), "r_events.c", d, unwind=n + 4, unwindset=uws(9, m=3), hinted=True, object_bits=12,
-                                samples=400000, timeout=1800, solver="kissat", required_witness=["end-of-scenario"]))
+                                samples=400000, timeout=3600, solver="cadical", required_witness=["end-of-scenario", "command-data-and-event-unit"]))
     return with_prop(prop, jobs)
 
 
@@ -503,6 +503,8 @@ def c15(tier):
         jobs += step_jobs("C15", tier, calls=2, pairs=pairs, ringcaps=(rc,))
     for shape, lines in (("ATnL", 1), ("ATn?L", 1), ("ATn=aL", 1), ("ATLATL", 2), ("gxL", 1)):
         jobs.append(shape_job("C15", shape, lines=lines))
+    # events only, black box: two triggers + a write refusal end in OK with nothing left behind
+    jobs += evq_jobs("C15", "quick")
     return with_prop("C15", jobs)
 
 
@@ -516,11 +518,17 @@ def c18(tier):
         jobs.append(shape_job("C18", shape, lines=lines))
     # cat_is_hold along a held run handler with release / spurious releases (black box)
     jobs.append(hold_job(0, 26))
+    # cat_is_busy along event-only runs (black box)
+    jobs += evq_jobs("C18", "quick")
     return with_prop("C18", jobs)
 
 
 def c11(tier):
-    return with_prop("C11", step_jobs("C11", tier) + evq_jobs("C11", tier))
+    jobs = step_jobs("C11", tier) + evq_jobs("C11", tier)
+    if tier != "quick":
+        # one command line AND two events in flight (both machines active), ~15 min per job
+        jobs += events_jobs("C11", tier)
+    return with_prop("C11", jobs)
 
 
 def c13(tier):
